@@ -57,6 +57,8 @@ def run(chk):
     if guard is not chk.REFUSED:
         chk.call(r3_eof, chk, mapb, guard)
     chk.call(r4_torn_tail, chk, mapb, put)
+    # a crash 1-4 bytes into a block header leaves a header that cannot be unpacked: that is "no further record", not an error
+    chk.borrow("C03.R2", c02.r9_short_header_is_no_header, chk)
 
 
 def _scan_loop(mapb):
